@@ -400,6 +400,13 @@ def run(ctx, rep):
     rep.rule('C08.O', "vectors in the order of the argument and vectors in sorted order are kept apart: element-wise operations, masked selections, gathers and scatters combine one family only (order-kind analysis of every sorting method of coalescent.py)")
     from sa import orders
     orders.check_orders(ctx, rep, 'C08.O', MOD, floor=8)
+    rep.rule('C08.M', "nothing computed from the population-size / growth / grid parameters or from the shapes of the events is kept across evaluations under a key that ignores their values (C11.M rules on coalescent.py)")
+    from props import c11 as _c11
+    from sa.report import RuleProxy as _RP
+    _c11.check_memo_keys(ctx, _RP(rep, 'C08.M', ''), only=lambda m_: m_.name == MOD)
+    from sa import purity as _pur
+    nshared = _pur.check_shared_class_containers(ctx, rep, 'C08.M', only=lambda m_: m_.name == MOD)
+    rep.ok('C08.M', 'coalescent::scanned', '', {'memo_sites': rep.analysed.get('memo_sites[C11.M]', 0), 'classes_scanned_for_shared_containers': nshared})
     rep.rule('C08.G', "one tree with a batch of population sizes: the fixed heights are expanded to the batch shape before sorting (torch.gather does not broadcast its index)")
     check_fixed_tree_expanded(ctx, rep)
     rep.rule('C08.B', "the density of one tree is a function of that tree and its parameters only: no whole-tensor reduction (no axis named) of a value that can carry a sample dimension in the coalescent module (C10.D machinery)")
